@@ -904,8 +904,13 @@ func (v *fnVC) rangeFact(t T, ty types.Type) T {
 		}
 		return and(fs...)
 	}
-	if _, ok := ty.Underlying().(*types.Slice); ok {
-		return and(app("<=", "0", app("slen_", t)), app("<=", app("slen_", t), app("-", app("scap", t), "0")), app("<=", "0", app("soff", t)), app("<=", "0", app("scap", t)), app("<=", app("+", app("soff", t), app("scap", t)), "9223372036854775807"), or(eq(app("sbase", t), "0"), and(v.allocd(app("sbase", t)), v.allocd(app("root", app("sbase", t))))), implies(eq(app("sbase", t), "0"), and(eq(app("scap", t), "0"), eq(app("soff", t), "0"))))
+	if sl, ok := ty.Underlying().(*types.Slice); ok {
+		// the backing array fits into the address space: cap * sizeof(elem) <= MaxInt64 (a run-time invariant of Go)
+		capBound := "true"
+		if es := types.SizesFor("gc", "amd64").Sizeof(sl.Elem()); es >= 2 && !v.P.bv {
+			capBound = app("<=", app("scap", t), fmt.Sprint(int64(9223372036854775807)/es))
+		}
+		return and(capBound, app("<=", "0", app("slen_", t)), app("<=", app("slen_", t), app("-", app("scap", t), "0")), app("<=", "0", app("soff", t)), app("<=", "0", app("scap", t)), app("<=", app("+", app("soff", t), app("scap", t)), "9223372036854775807"), or(eq(app("sbase", t), "0"), and(v.allocd(app("sbase", t)), v.allocd(app("root", app("sbase", t))))), implies(eq(app("sbase", t), "0"), and(eq(app("scap", t), "0"), eq(app("soff", t), "0"))))
 	}
 	return "true"
 }
